@@ -12,7 +12,7 @@ REAL = ['onl.sim.core.Environment', 'onl.sim.events.Event/Timeout/Process/Initia
 STUBS = ['process bodies and plain callbacks are harness code']
 ASSUMPTIONS = ['registration order of process waiters is the G order of the bodies\' "about to yield" logs',
                'no condition events in C02 programs (C05 owns them)']
-PROBES = ['conditions_among_waiters', 'chained_trigger', 'trigger_door_on_triggered_event', 'driven_by_run_until_event', 'until_event_failed', 'event_ge3_waiters', 'failed_mixed_handling', 'reyield_processed_failed', 'child_failure_no_joiner',
+PROBES = ['failure_of_a_kernel_signal_class', 'conditions_among_waiters', 'chained_trigger', 'trigger_door_on_triggered_event', 'driven_by_run_until_event', 'until_event_failed', 'event_ge3_waiters', 'failed_mixed_handling', 'reyield_processed_failed', 'child_failure_no_joiner',
           'double_trigger', 'detached_by_interrupt', 'unhandled_escape', 'reyield_processed_ok']
 
 
@@ -55,6 +55,26 @@ def gen(rng, tier):
                 plan.append(['until', case['t0'] + rng.choice([0.5, 1, 2, 3])])
         plan.append(['run'])
         case['drive'] = plan
+    if rng.random() < 0.08:
+        # the uncaught exception of a process (or the failure of a shared event) is of one of the kernel's own signal
+        # classes, and the simulation is driven by the real run() / run(until=t): the failure must come out of run()
+        # like any other, not be taken for "nothing left" or for the stop request
+        case['ctl_exc'] = True
+
+        def walk(ops):
+            for op in ops:
+                if op.get('exc') and rng.random() < 0.6:
+                    op['exc'] = ['StopSimulation', [rng.randint(100, 999)]] if rng.random() < 0.5 else ['EmptySchedule', []]
+                if op.get('op') == 'spawn':
+                    walk(op.get('ops', []))
+        for it in case['setup']:
+            if it.get('k') == 'proc':
+                walk(it.get('ops', []))
+        t, plan = case['t0'], []
+        for _ in range(rng.randint(0, 3)):
+            t = t + rng.choice([0.5, 1, 2, 3])
+            plan.append(['until', t])
+        case['drive'] = plan + [['real_run'], ['real_run'], ['real_run'], ['run']]
     return case
 
 
@@ -303,6 +323,28 @@ def _cmp_outcome(viol, clause, pid, lb, e, how, data, same):
             viol.append((clause, '%s waiting on failed %s (%s%r) received %s %r' % (pid, lb, e[1], e[2], how, data)))
 
 
+def check_real_runs(log):
+    """Every call of the real run() during which an unhandled failure escaped step() must have raised exactly that failure
+    (C02: 'makes run()/step() raise that exception at that instant instead of continuing silently')."""
+    viol = []
+    xs = []
+    for r in log:
+        if r[0] == 'X':
+            xs.append(r)
+        elif r[0] == 'D' and r[4] in ('until', 'run'):
+            what, arg, how, data = r[4], r[5], r[6], r[7]
+            if xs:
+                x = xs[0]
+                if how == 'ret':
+                    viol.append(('C02.6', 'the failure %r escaped step() at kernel step %d, but run(%s) returned %r as if '
+                                 'nothing had happened' % (x[3], x[2], '' if what == 'run' else 'until=%r' % (arg,), data)))
+                elif how == 'exc' and tuple(data[:3]) != tuple(x[3][:3]):
+                    viol.append(('C02.6', 'the failure %r escaped step() at kernel step %d, but run(%s) raised %r instead' %
+                                 (x[3], x[2], '' if what == 'run' else 'until=%r' % (arg,), data)))
+            xs = []
+    return viol
+
+
 def run(case):
     from ..core import san
     w = setup_world(case)
@@ -325,6 +367,9 @@ def run(case):
     viol, stats, nontrivial = check(env.log, _values(case), final, quiescent, cond_handling=ch)
     if ch is not None:
         stats['conditions_among_waiters'] = 1
+    if case.get('ctl_exc'):
+        stats['failure_of_a_kernel_signal_class'] = 1
+        viol += check_real_runs(env.log)
     res = {'viol': viol, 'digest': digest_of(env.log), 'nontrivial': nontrivial, 'stats': stats,
            'simtime': float(env.now) - float(case.get('t0', 0)), 'steps': steps}
     if case.get('_excerpt'):
